@@ -232,7 +232,9 @@ fn supervise(id: &'static str, tier: Tier, seed: u64, replay: Option<String>) ->
 fn abort_verdict(id: &str, path: &str, sig: i32, tier: Tier, seed: u64, start: std::time::Instant) -> i32 {
     // C01 and C02 promise "never aborts"; for the other properties an abort is outside their claim
     // and is reported as inconclusive (C02 owns it).
-    let owns = id == "C01" || id == "C02";
+    // C01 and C02 promise "never aborts" in so many words; every other property promises a *result* for the
+    // operations of the journalled case, which a process abort denies just as well.
+    let owns = true;
     let ev = serde_json::json!({
         "property_id": id, "tier": tier.name(), "seed": seed, "level": "exploration",
         "coverage": {"evaluations": 1, "distinct_nontrivial": 0, "rule": "run ended by a process abort; see replay", "samples": [path],
